@@ -165,7 +165,13 @@ def standard_check(mod, tier, seed, replay=None):
         else:
             corpus = load_corpus(mod)
             for fn in corpus:
-                cs = core.run_harness(mod.HARNESS, replay=fn, extra=getattr(mod, "HARNESS_EXTRA", []))
+                try:
+                    with open(fn) as f:
+                        first = json.loads(f.readline())
+                except Exception:
+                    continue
+                fm = fam_of(mod, first)
+                cs = tagged(fm, core.run_harness(fm.HARNESS, replay=fn, extra=getattr(fm, "HARNESS_EXTRA", [])))
                 for c in cs:
                     c["_corpus"] = os.path.basename(fn)
                 cases += cs
